@@ -25,12 +25,20 @@ type ctlClock struct {
 	mu      sync.Mutex
 	now     int64
 	onAfter func(gid int64, t *timer, d time.Duration) // called with mu released
+	// onNow (plugin suite only): called with mu released AFTER the clock was read;
+	// it may block the calling goroutine (yield point at queue.NewRequest's
+	// clock.Now()); the value read before is what Now returns.
+	onNow func(t int64)
 }
 
 func (c *ctlClock) Now() time.Time {
 	c.mu.Lock()
-	defer c.mu.Unlock()
-	return time.Unix(0, c.now)
+	t := c.now
+	c.mu.Unlock()
+	if c.onNow != nil {
+		c.onNow(t)
+	}
+	return time.Unix(0, t)
 }
 func (c *ctlClock) nowNs() int64 {
 	c.mu.Lock()
